@@ -92,6 +92,11 @@ pub struct Behav {
     #[serde(default)]
     pub outs: Vec<OutStep>,
     pub code: i32,
+    /// real time (ms) the child stays alive and silent before it is told to exit; 0 almost always.
+    /// Timers inside monorail run on the real clock in this engine, so "a child much slower than its
+    /// dependents" has to be lived through.
+    #[serde(default)]
+    pub exit_pause_ms: u32,
 }
 
 #[derive(Serialize, Deserialize, Clone, Copy, Debug, PartialEq)]
@@ -246,6 +251,7 @@ pub struct RunTrace {
     /// exit record of the listener if a fault killed it
     pub listener_exit: Option<ProcExit>,
     pub outs_acked: usize,
+    pub real_pause_ms: u64,
 }
 impl RunTrace {
     pub fn result_json(&self) -> Option<serde_json::Value> {
@@ -626,7 +632,12 @@ pub fn drive_run_l(w: &mut World, actor: &str, sc: &RunScript, hang: Duration, l
                         }
                     }
                     None => {
-                        let code = sc.behav_for(&tr.helpers[i].command, &tr.helpers[i].target).map(|b| b.code).unwrap_or(0);
+                        let (code, pause) = sc.behav_for(&tr.helpers[i].command, &tr.helpers[i].target).map(|b| (b.code, b.exit_pause_ms)).unwrap_or((0, 0));
+                        if pause > 0 {
+                            tr.log.push(format!("hold {} {} for {} ms", tr.helpers[i].command, tr.helpers[i].target, pause));
+                            tr.real_pause_ms += pause as u64;
+                            std::thread::sleep(Duration::from_millis(pause as u64));
+                        }
                         let seq = ctl.tick();
                         ctl.send(conn, &format!("EXIT {}\n", code));
                         tr.helpers[i].exit_instr_seq = Some(seq);
